@@ -28,6 +28,7 @@ structure Obs where
   raised : Bool
   after : PyDict S S           -- the service's variables afterwards
   callbacks : List (List S)    -- further callbacks (names carried), before the one for LastChange itself
+  othersUnchanged : Bool := true   -- the variables of the device's other services kept their values
 deriving DecidableEq, Repr
 
 /-- the assignments that concern variables the service has -/
@@ -35,28 +36,37 @@ def relevant (vars : PyDict S S) (m : PyDict S S) : PyDict S S := m.filter fun p
 
 def applyAll (vars : PyDict S S) (m : PyDict S S) : PyDict S S := m.foldl (fun acc p => set acc p.1 p.2) vars
 
+/-- the same names, in any order ("carrying exactly those variables") -/
+def sameNames (a b : List S) : Bool :=
+  a.length == b.length && a.all (b.contains ·) && b.all (a.contains ·)
+
 /-- well-formed event `d` (`none` = empty value) against the observation -/
 def ok (vars : PyDict S S) (d : Option LcDoc) (o : Obs) : Bool :=
   let m := match d with
     | none => []
     | some d => relevant vars (master0 d)
-  !o.raised
+  !o.raised && o.othersUnchanged
   && o.after == applyAll vars m
-  && (o.callbacks == [m.map (·.1)] || (m.isEmpty && o.callbacks.isEmpty))
+  && (match o.callbacks with
+      | [c] => sameNames c (m.map (·.1))
+      | [] => m.isEmpty
+      | _ => false)
 
 /-- any value (well-formed or not): expansion never raises -/
 def okAny (o : Obs) : Bool := !o.raised
 
 /-- the shape the renderer guarantees (decidable form of `WF`, Lemmas/C19): no `val` on the root,
-    colon-free prefixes and local names, no unprefixed entry called InstanceID -/
+    colon-free prefixes and local names, no entry called InstanceID -/
 def wfEntryB (e : Entry) : Bool :=
-  !e.name.contains ':' && (match e.pfx with | some p => !p.contains ':' | none => e.name != sInstanceID)
+  !e.name.contains ':' && e.name != sInstanceID
+    && (match e.pfx with | some p => !p.contains ':' | none => true)
 
 def wfB (d : LcDoc) : Bool :=
-  (get? d.rootAttrs sVal).isNone && d.loose.all wfEntryB && d.insts.all fun i => i.entries.all wfEntryB
+  (get? d.rootAttrs sVal).isNone && d.loose.all wfEntryB
+    && d.insts.all fun i => i.entries.all wfEntryB && (match i.ipfx with | some p => !p.contains ':' | none => true)
 
 def observe (vars : PyDict S S) : Except PyErr (PyDict S S × List (List S)) → Obs
-  | .error _ => ⟨true, vars, []⟩
-  | .ok r => ⟨false, r.1, r.2⟩
+  | .error _ => ⟨true, vars, [], true⟩
+  | .ok r => ⟨false, r.1, r.2, true⟩
 
 end Upnp.C19
